@@ -89,7 +89,7 @@ func newC07World() *c07World {
 	cw.w = world.NewL2(world.L2Options{
 		Accounts: map[string]sdk.Coins{"alice": nil, "bob": nil, "executor": nil, "admin": nil, "payee": nil, "e2": nil,
 			"hooker": sdk.NewCoins(sdk.NewInt64Coin(c07HookDenom, 100))},
-		Executors: []string{"executor", "e2"}, // the relaying executor is the first of two listed ones
+		Executors: world.ExecutorsWithSpare("executor"), // the relaying executor is the first of two listed ones, and the list is not sorted
 		WrapBank: func(b opchildtypes.BankKeeper) opchildtypes.BankKeeper {
 			return world.FaultBank{BankKeeper: b, F: cw.f}
 		},
